@@ -432,144 +432,135 @@ Qed.
 Lemma no_invoke_retn l : existsb is_invoke (map ORetN l) = false.
 Proof. induction l as [|x l IH]; [reflexivity | exact IH]. Qed.
 
+Definition step_ok (m : mst) (s : st) (o : op) : Prop :=
+  snd (mon m o (snd (step s o))) = [] /\ Inv (fst (mon m o (snd (step s o)))) (fst (step s o)).
+
+Definition plain (o : op) : bool :=
+  match o with Inbound _ _ | AddRespCb _ _ _ _ | AddResultCb _ _ _ => false | _ => true end.
+
+Lemma plain_facts s o : plain o = true -> vsame s (fst (step s o)) /\ existsb is_invoke (snd (step s o)) = false.
+Proof.
+  destruct o; try discriminate; intros _; unfold step; cbn [step_v].
+  - destruct (existsb _ (lents s)); cbn [fst snd]; (split; [|reflexivity]); apply vsame_lfeats; reflexivity.
+  - destruct (find _ (lents s)); cbn [fst snd]; (split; [|reflexivity]); [|apply vsame_refl].
+    destruct (existsb _ (lfeats s)); [apply vsame_lfeats; reflexivity|].
+    unfold vsame, view_r, view_q. cbn [lfeats]. apply views_app_fresh; reflexivity.
+  - cbn [fst snd]. split; [|reflexivity].
+    apply views_upd_neutral; intros x; (destruct (eqb_role _ _); [split; reflexivity|]); destruct (assoc_N _ _); split; reflexivity.
+  - destruct (find_lfeat s e (Some f)); [destruct (fn_registered _ _)|]; cbn [fst snd]; (split; [|reflexivity]); try apply vsame_refl.
+    apply views_upd_neutral; intros x; split; reflexivity.
+  - destruct (find_lfeat s e (Some f)); cbn [fst snd]; (split; [|reflexivity]); apply vsame_refl.
+  - cbn [fst snd]. split; [|reflexivity]. apply vsame_lfeats. unfold disconnect. destruct (find_peer s p); reflexivity.
+  - cbn [fst snd]. split; [|reflexivity]. apply vsame_lfeats. unfold disconnect. destruct (find_peer s p); reflexivity.
+  - cbn [fst snd]. split; [apply vsame_refl|].
+    rewrite existsb_app, no_invoke_retn. destruct (N.eqb t T_GENERIC); reflexivity.
+Qed.
+
+Lemma plain_ok m s o : Inv m s -> plain o = true -> step_ok m s o.
+Proof.
+  intros HI Hpl. destruct (plain_facts s o Hpl) as [Hv Hno]. unfold step_ok.
+  assert (Hm : mon m o (snd (step s o)) = (advance m o (pending m) (resultcbs m), no_invokes (snd (step s o)))).
+  { destruct o; try discriminate Hpl; reflexivity. }
+  rewrite Hm. cbn [fst snd]. unfold no_invokes. rewrite Hno. split; [reflexivity|].
+  eapply Inv_vsame; eauto.
+Qed.
+
+Lemma inbound_ok m s p d : Inv m s -> step_ok m s (Inbound p d).
+Proof.
+  intros HI. pose proof HI as [Hw [H1 H2]]. unfold step_ok, mon.
+rewrite Hw. unfold step. cbn [step_v].
+destruct (find_peer s p) as [pe|] eqn:Hp.
+2:{ cbn [fst snd]. split; [reflexivity|]. eapply Inv_vsame; eauto; [apply vsame_refl|]. unfold step. cbn [step_v]. rewrite Hp. reflexivity. }
+pose proof (find_peer_ski _ _ _ Hp) as Hk. subst p.
+assert (Hnone : forall out s', process_cmd repaired s pe d = (s', out) -> vsame s s' -> inv out = [] ->
+          snd (advance m (Inbound (p_ski pe) d) (pending m) (resultcbs m), check (negb (existsb is_invoke out)) CL_INVOKE) = [] /\
+          Inv (fst (advance m (Inbound (p_ski pe) d) (pending m) (resultcbs m), check (negb (existsb is_invoke out)) CL_INVOKE)) s').
+{ intros out s' Hs Hv Hno. cbn [fst snd]. rewrite (inv_nil_no_invokes _ Hno). split; [reflexivity|].
+  eapply Inv_vsame; eauto. unfold step. cbn [step_v]. rewrite Hp, Hs. reflexivity. }
+destruct (remote_feature pe (d_src d)) as [[en rf]|] eqn:Hsrc.
+2:{ destruct (process_cmd repaired s pe d) as [s' out] eqn:Hs. cbn [fst snd]. apply (Hnone out s' eq_refl);
+      unfold process_cmd in Hs; rewrite Hsrc in Hs; injection Hs as <- <-; [apply vsame_refl | reflexivity]. }
+destruct (local_feature s (d_dst d)) as [lf|] eqn:Hl.
+2:{ destruct (process_cmd repaired s pe d) as [s' out] eqn:Hs. cbn [fst snd]. apply (Hnone out s' eq_refl);
+      unfold process_cmd in Hs; rewrite Hsrc, Hl in Hs; destruct (_ && _); injection Hs as <- <-;
+      try apply vsame_refl; reflexivity. }
+pose proof (process_cmd_handled s pe en rf lf d Hp Hsrc Hl) as Hh.
+pose proof (found_local _ _ _ Hl) as Hf.
+destruct (process_cmd repaired s pe d) as [s' out] eqn:Hs. cbn [fst snd] in *.
+destruct (delivers s pe en rf lf d) as [[[r data] res]|] eqn:Hd; unfold handled in Hh; cbn [fst snd] in Hh.
+2:{ destruct Hh as [Hv Hi]. apply (Hnone out s' eq_refl Hv Hi). }
+destruct Hh as [[V1 V2] Hi]. cbn [fst snd]. split.
++ fold (inv out). rewrite Hi. unfold expected_invokes. rewrite H1, H2. unfold view_r, view_q.
+  unfold found in Hf. rewrite Hf.
+  change (fun cb : N => OInvoke cb (lf_ent lf) (lf_id lf) r (p_ski pe) (re_addr en) (rf_id rf) data)
+    with (mk_invoke lf r (p_ski pe) en rf data).
+  rewrite same_multiset_refl; [reflexivity|]. rewrite <- Hi. apply forallb_inv.
++ unfold advance. split; [cbn [w]; rewrite Hw; unfold step; cbn [step_v]; rewrite Hp, Hs; reflexivity|].
+  cbn [pending resultcbs]. split.
+  * intros e f c. rewrite cbs_of_used_up, V1, H1. unfold is_key. reflexivity.
+  * intros e f. rewrite H2, V2. reflexivity.
+Qed.
+
+Lemma addresp_ok m s e f ctr cb : Inv m s -> step_ok m s (AddRespCb e f ctr cb).
+Proof.
+  intros HI. pose proof HI as [Hw [H1 H2]]. unfold step_ok, mon.
+rewrite Hw. rewrite find_lfeat_find. unfold step. cbn [step_v]. rewrite find_lfeat_find.
+destruct (find (is_feat e f) (lfeats s)) as [lf|] eqn:Hf.
+2:{ cbn [fst snd]. split; [reflexivity|]. eapply Inv_vsame; eauto; [apply vsame_refl|].
+    unfold step. cbn [step_v]. rewrite find_lfeat_find, Hf. reflexivity. }
+assert (Hc : cbs_of (pending m) e f ctr = match assoc_N ctr (lf_rcb lf) with Some l => l | None => [] end).
+{ rewrite H1. unfold view_r. rewrite Hf. reflexivity. }
+rewrite Hc. set (cbs := match assoc_N ctr (lf_rcb lf) with Some l => l | None => [] end) in *.
+destruct (memN cb cbs) eqn:Hdup; cbn [fst snd negb].
++ split; [reflexivity|]. eapply Inv_vsame; eauto; [apply vsame_refl|].
+  unfold step. cbn [step_v]. rewrite find_lfeat_find, Hf. fold cbs. rewrite Hdup. reflexivity.
++ split; [reflexivity|]. unfold advance. split.
+  { cbn [w]. rewrite Hw. unfold step. cbn [step_v]. rewrite find_lfeat_find, Hf. fold cbs. rewrite Hdup. reflexivity. }
+  cbn [pending resultcbs]. split.
+  * intros e' f' c'. unfold cbs_of. rewrite filter_app, map_app. fold (cbs_of (pending m) e' f' c'). rewrite H1.
+    rewrite view_r_upd by (intros x; split; reflexivity). rewrite Hf. cbn [set_rcb lf_rcb filter].
+    change (on_key e' f' c' {| g_ent := e; g_feat := f; g_ctr := ctr; g_cb := cb |})
+      with (eqb_eaddr e e' && N.eqb f f' && N.eqb ctr c').
+    destruct (eqb_eaddr e e' && N.eqb f f') eqn:E; cbn [andb].
+    -- destruct (key_cases _ _ _ _ E) as [-> ->]. unfold view_r. rewrite Hf. unfold lookup at 2. cbn [assoc_N].
+       rewrite (N.eqb_sym c' ctr). destruct (N.eqb ctr c') eqn:Ec; cbn [map g_cb].
+       ++ apply N.eqb_eq in Ec. subst c'. unfold lookup. fold cbs. reflexivity.
+       ++ rewrite app_nil_r. unfold lookup. rewrite assoc_remove_other by (rewrite N.eqb_sym; exact Ec). reflexivity.
+    -- cbn [map]. apply app_nil_r.
+  * intros e' f'. rewrite H2. rewrite view_q_upd by (intros x; split; reflexivity).
+    destruct (eqb_eaddr e e' && N.eqb f f') eqn:E; [|reflexivity].
+    destruct (key_cases _ _ _ _ E) as [-> ->]. unfold view_q. rewrite Hf. reflexivity.
+Qed.
+
+Lemma addresult_ok m s e f cb : Inv m s -> step_ok m s (AddResultCb e f cb).
+Proof.
+  intros HI. pose proof HI as [Hw [H1 H2]]. unfold step_ok, mon.
+rewrite Hw. rewrite find_lfeat_find. unfold step. cbn [step_v]. rewrite find_lfeat_find.
+destruct (find (is_feat e f) (lfeats s)) as [lf|] eqn:Hf.
+2:{ cbn [fst snd]. split; [reflexivity|]. eapply Inv_vsame; eauto; [apply vsame_refl|].
+    unfold step. cbn [step_v]. rewrite find_lfeat_find, Hf. reflexivity. }
+cbn [fst snd]. split; [reflexivity|]. unfold advance. split.
+{ cbn [w]. rewrite Hw. unfold step. cbn [step_v]. rewrite find_lfeat_find, Hf. reflexivity. }
+cbn [pending resultcbs]. split.
++ intros e' f' c'. rewrite H1. rewrite view_r_upd by (intros x; split; reflexivity).
+  destruct (eqb_eaddr e e' && N.eqb f f') eqn:E; [|reflexivity].
+  destruct (key_cases _ _ _ _ E) as [-> ->]. unfold view_r. rewrite Hf. reflexivity.
++ intros e' f'. unfold rcbs_of. rewrite filter_app, map_app. fold (rcbs_of (resultcbs m) e' f'). rewrite H2.
+  rewrite view_q_upd by (intros x; split; reflexivity). rewrite Hf. cbn [set_resultcb lf_resultcb filter].
+  change (on_feat e' f' {| q_ent := e; q_feat := f; q_cb := cb |}) with (eqb_eaddr e e' && N.eqb f f').
+  destruct (eqb_eaddr e e' && N.eqb f f') eqn:E.
+  * destruct (key_cases _ _ _ _ E) as [-> ->]. unfold view_q. rewrite Hf. reflexivity.
+  * cbn [map]. apply app_nil_r.
+Qed.
+
 Lemma mon_step_ok m s o :
   Inv m s ->
   snd (mon m o (snd (step s o))) = [] /\ Inv (fst (mon m o (snd (step s o)))) (fst (step s o)).
 Proof.
-  intros HI. pose proof HI as [Hw [H1 H2]].
-  assert (Hplain : forall out s', step s o = (s', out) -> vsame s s' -> existsb is_invoke out = false ->
-            snd (advance m o (pending m) (resultcbs m), no_invokes out) = [] /\
-            Inv (fst (advance m o (pending m) (resultcbs m), no_invokes out)) s').
-  { intros out s' Hs Hv Hno. cbn [fst snd]. unfold no_invokes. rewrite Hno. split; [reflexivity|].
-    eapply Inv_vsame; eauto. rewrite Hs. reflexivity. }
-  destruct o; unfold mon.
-  - (* AddLocalEntity *)
-    destruct (step s (AddLocalEntity e)) as [s' out] eqn:Hs. cbn [fst snd].
-    assert (Hv : vsame s s' /\ existsb is_invoke out = false).
-    { unfold step in Hs; cbn [step_v] in Hs. destruct (existsb _ (lents s)); injection Hs as <- <-;
-        (split; [|reflexivity]); apply vsame_lfeats; reflexivity. }
-    destruct Hv as [Hv Hno]. exact (Hplain out s' eq_refl Hv Hno).
-  - (* AddLocalFeature *)
-    destruct (step s (AddLocalFeature e t r)) as [s' out] eqn:Hs. cbn [fst snd].
-    assert (Hv : vsame s s' /\ existsb is_invoke out = false).
-    { unfold step in Hs; cbn [step_v] in Hs. destruct (find _ (lents s)); injection Hs as <- <-;
-        (split; [|reflexivity]); [|apply vsame_refl].
-      destruct (existsb _ (lfeats s)); [apply vsame_lfeats; reflexivity|].
-      unfold vsame, view_r, view_q. cbn [lfeats]. apply views_app_fresh; reflexivity. }
-    destruct Hv as [Hv Hno]. exact (Hplain out s' eq_refl Hv Hno).
-  - (* AddFunction *)
-    destruct (step s (AddFunction e f fn rd wr)) as [s' out] eqn:Hs. cbn [fst snd].
-    assert (Hv : vsame s s' /\ existsb is_invoke out = false).
-    { unfold step in Hs; cbn [step_v] in Hs. injection Hs as <- <-. split; [|reflexivity].
-      apply views_upd_neutral; intros x; (destruct (eqb_role _ _); [split; reflexivity|]); destruct (assoc_N _ _); split; reflexivity. }
-    destruct Hv as [Hv Hno]. exact (Hplain out s' eq_refl Hv Hno).
-  - (* SetData *)
-    destruct (step s (SetData e f fn v)) as [s' out] eqn:Hs. cbn [fst snd].
-    assert (Hv : vsame s s' /\ existsb is_invoke out = false).
-    { unfold step in Hs; cbn [step_v] in Hs. destruct (find_lfeat s e (Some f)); [destruct (fn_registered _ _)|];
-        injection Hs as <- <-; (split; [|reflexivity]); try apply vsame_refl.
-      apply views_upd_neutral; intros x; split; reflexivity. }
-    destruct Hv as [Hv Hno]. exact (Hplain out s' eq_refl Hv Hno).
-  - (* GetData *)
-    destruct (step s (GetData e f fn)) as [s' out] eqn:Hs. cbn [fst snd].
-    assert (Hv : vsame s s' /\ existsb is_invoke out = false).
-    { unfold step in Hs; cbn [step_v] in Hs. destruct (find_lfeat s e (Some f));
-        injection Hs as <- <-; (split; [|reflexivity]); apply vsame_refl. }
-    destruct Hv as [Hv Hno]. exact (Hplain out s' eq_refl Hv Hno).
-  - (* Connect *)
-    destruct (step s (Connect p)) as [s' out] eqn:Hs. cbn [fst snd].
-    assert (Hv : vsame s s' /\ existsb is_invoke out = false).
-    { unfold step in Hs; cbn [step_v] in Hs. injection Hs as <- <-. split; [|reflexivity].
-      apply vsame_lfeats. unfold disconnect. destruct (find_peer s p); reflexivity. }
-    destruct Hv as [Hv Hno]. exact (Hplain out s' eq_refl Hv Hno).
-  - (* Disconnect *)
-    destruct (step s (Disconnect p)) as [s' out] eqn:Hs. cbn [fst snd].
-    assert (Hv : vsame s s' /\ existsb is_invoke out = false).
-    { unfold step in Hs; cbn [step_v] in Hs. injection Hs as <- <-. split; [|reflexivity].
-      apply vsame_lfeats. unfold disconnect. destruct (find_peer s p); reflexivity. }
-    destruct Hv as [Hv Hno]. exact (Hplain out s' eq_refl Hv Hno).
-  - (* Inbound *)
-    rewrite Hw. unfold step. cbn [step_v].
-    destruct (find_peer s p) as [pe|] eqn:Hp.
-    2:{ cbn [fst snd]. split; [reflexivity|]. eapply Inv_vsame; eauto; [apply vsame_refl|]. unfold step. cbn [step_v]. rewrite Hp. reflexivity. }
-    pose proof (find_peer_ski _ _ _ Hp) as Hk. subst p.
-    assert (Hnone : forall out s', process_cmd repaired s pe d = (s', out) -> vsame s s' -> inv out = [] ->
-              snd (advance m (Inbound (p_ski pe) d) (pending m) (resultcbs m), check (negb (existsb is_invoke out)) CL_INVOKE) = [] /\
-              Inv (fst (advance m (Inbound (p_ski pe) d) (pending m) (resultcbs m), check (negb (existsb is_invoke out)) CL_INVOKE)) s').
-    { intros out s' Hs Hv Hno. cbn [fst snd]. rewrite (inv_nil_no_invokes _ Hno). split; [reflexivity|].
-      eapply Inv_vsame; eauto. unfold step. cbn [step_v]. rewrite Hp, Hs. reflexivity. }
-    destruct (remote_feature pe (d_src d)) as [[en rf]|] eqn:Hsrc.
-    2:{ destruct (process_cmd repaired s pe d) as [s' out] eqn:Hs. cbn [fst snd]. apply (Hnone out s' eq_refl);
-          unfold process_cmd in Hs; rewrite Hsrc in Hs; injection Hs as <- <-; [apply vsame_refl | reflexivity]. }
-    destruct (local_feature s (d_dst d)) as [lf|] eqn:Hl.
-    2:{ destruct (process_cmd repaired s pe d) as [s' out] eqn:Hs. cbn [fst snd]. apply (Hnone out s' eq_refl);
-          unfold process_cmd in Hs; rewrite Hsrc, Hl in Hs; destruct (_ && _); injection Hs as <- <-;
-          try apply vsame_refl; reflexivity. }
-    pose proof (process_cmd_handled s pe en rf lf d Hp Hsrc Hl) as Hh.
-    pose proof (found_local _ _ _ Hl) as Hf.
-    destruct (process_cmd repaired s pe d) as [s' out] eqn:Hs. cbn [fst snd] in *.
-    destruct (delivers s pe en rf lf d) as [[[r data] res]|] eqn:Hd; unfold handled in Hh; cbn [fst snd] in Hh.
-    2:{ destruct Hh as [Hv Hi]. apply (Hnone out s' eq_refl Hv Hi). }
-    destruct Hh as [[V1 V2] Hi]. cbn [fst snd]. split.
-    + fold (inv out). rewrite Hi. unfold expected_invokes. rewrite H1, H2. unfold view_r, view_q.
-      unfold found in Hf. rewrite Hf.
-      change (fun cb : N => OInvoke cb (lf_ent lf) (lf_id lf) r (p_ski pe) (re_addr en) (rf_id rf) data)
-        with (mk_invoke lf r (p_ski pe) en rf data).
-      rewrite same_multiset_refl; [reflexivity|]. rewrite <- Hi. apply forallb_inv.
-    + unfold advance. split; [cbn [w]; rewrite Hw; unfold step; cbn [step_v]; rewrite Hp, Hs; reflexivity|].
-      cbn [pending resultcbs]. split.
-      * intros e f c. rewrite cbs_of_used_up, V1, H1. unfold is_key. reflexivity.
-      * intros e f. rewrite H2, V2. reflexivity.
-  - (* AddRespCb *)
-    rewrite Hw. rewrite find_lfeat_find. unfold step. cbn [step_v]. rewrite find_lfeat_find.
-    destruct (find (is_feat e f) (lfeats s)) as [lf|] eqn:Hf.
-    2:{ cbn [fst snd]. split; [reflexivity|]. eapply Inv_vsame; eauto; [apply vsame_refl|].
-        unfold step. cbn [step_v]. rewrite find_lfeat_find, Hf. reflexivity. }
-    assert (Hc : cbs_of (pending m) e f ctr = match assoc_N ctr (lf_rcb lf) with Some l => l | None => [] end).
-    { rewrite H1. unfold view_r. rewrite Hf. reflexivity. }
-    rewrite Hc. set (cbs := match assoc_N ctr (lf_rcb lf) with Some l => l | None => [] end) in *.
-    destruct (memN cb cbs) eqn:Hdup; cbn [fst snd negb].
-    + split; [reflexivity|]. eapply Inv_vsame; eauto; [apply vsame_refl|].
-      unfold step. cbn [step_v]. rewrite find_lfeat_find, Hf. fold cbs. rewrite Hdup. reflexivity.
-    + split; [reflexivity|]. unfold advance. split.
-      { cbn [w]. rewrite Hw. unfold step. cbn [step_v]. rewrite find_lfeat_find, Hf. fold cbs. rewrite Hdup. reflexivity. }
-      cbn [pending resultcbs]. split.
-      * intros e' f' c'. unfold cbs_of. rewrite filter_app, map_app. fold (cbs_of (pending m) e' f' c'). rewrite H1.
-        rewrite view_r_upd by (intros x; split; reflexivity). rewrite Hf. cbn [set_rcb lf_rcb filter].
-        change (on_key e' f' c' {| g_ent := e; g_feat := f; g_ctr := ctr; g_cb := cb |})
-          with (eqb_eaddr e e' && N.eqb f f' && N.eqb ctr c').
-        destruct (eqb_eaddr e e' && N.eqb f f') eqn:E; cbn [andb].
-        -- destruct (key_cases _ _ _ _ E) as [-> ->]. unfold view_r. rewrite Hf. unfold lookup at 2. cbn [assoc_N].
-           rewrite (N.eqb_sym c' ctr). destruct (N.eqb ctr c') eqn:Ec; cbn [map g_cb].
-           ++ apply N.eqb_eq in Ec. subst c'. unfold lookup. fold cbs. reflexivity.
-           ++ rewrite app_nil_r. unfold lookup. rewrite assoc_remove_other by (rewrite N.eqb_sym; exact Ec). reflexivity.
-        -- cbn [map]. apply app_nil_r.
-      * intros e' f'. rewrite H2. rewrite view_q_upd by (intros x; split; reflexivity).
-        destruct (eqb_eaddr e e' && N.eqb f f') eqn:E; [|reflexivity].
-        destruct (key_cases _ _ _ _ E) as [-> ->]. unfold view_q. rewrite Hf. reflexivity.
-  - (* AddResultCb *)
-    rewrite Hw. rewrite find_lfeat_find. unfold step. cbn [step_v]. rewrite find_lfeat_find.
-    destruct (find (is_feat e f) (lfeats s)) as [lf|] eqn:Hf.
-    2:{ cbn [fst snd]. split; [reflexivity|]. eapply Inv_vsame; eauto; [apply vsame_refl|].
-        unfold step. cbn [step_v]. rewrite find_lfeat_find, Hf. reflexivity. }
-    cbn [fst snd]. split; [reflexivity|]. unfold advance. split.
-    { cbn [w]. rewrite Hw. unfold step. cbn [step_v]. rewrite find_lfeat_find, Hf. reflexivity. }
-    cbn [pending resultcbs]. split.
-    + intros e' f' c'. rewrite H1. rewrite view_r_upd by (intros x; split; reflexivity).
-      destruct (eqb_eaddr e e' && N.eqb f f') eqn:E; [|reflexivity].
-      destruct (key_cases _ _ _ _ E) as [-> ->]. unfold view_r. rewrite Hf. reflexivity.
-    + intros e' f'. unfold rcbs_of. rewrite filter_app, map_app. fold (rcbs_of (resultcbs m) e' f'). rewrite H2.
-      rewrite view_q_upd by (intros x; split; reflexivity). rewrite Hf. cbn [set_resultcb lf_resultcb filter].
-      change (on_feat e' f' {| q_ent := e; q_feat := f; q_cb := cb |}) with (eqb_eaddr e e' && N.eqb f f').
-      destruct (eqb_eaddr e e' && N.eqb f f') eqn:E.
-      * destruct (key_cases _ _ _ _ E) as [-> ->]. unfold view_q. rewrite Hf. reflexivity.
-      * cbn [map]. apply app_nil_r.
-  - (* QFactory *)
-    destruct (step s (QFactory t)) as [s' out] eqn:Hs. cbn [fst snd].
-    assert (Hv : vsame s s' /\ existsb is_invoke out = false).
-    { unfold step in Hs; cbn [step_v] in Hs. injection Hs as <- <-. split; [apply vsame_refl|].
-      rewrite existsb_app, no_invoke_retn. destruct (N.eqb t T_GENERIC); reflexivity. }
-    destruct Hv as [Hv Hno]. exact (Hplain out s' eq_refl Hv Hno).
+  intros HI. destruct o; try (apply plain_ok; [exact HI | reflexivity]).
+  - apply inbound_ok; exact HI.
+  - apply addresp_ok; exact HI.
+  - apply addresult_ok; exact HI.
 Qed.
 
 (* ------------------------------------------------------------------ whole histories *)
@@ -611,7 +602,7 @@ Proof.
   destruct (memN cb cbs) eqn:Hdup; cbn [fst].
   - unfold step. cbn [step_v]. rewrite Hf. fold cbs. rewrite Hdup. reflexivity.
   - unfold step. cbn [step_v]. rewrite find_lfeat_find. unfold upd_lfeat, set_lfeats. cbn [lfeats].
-    rewrite (find_upd_first_same e f _ (fun x => conj eq_refl eq_refl)).
+    rewrite find_upd_first_same by (intros x; split; reflexivity).
     rewrite find_lfeat_find in Hf. rewrite Hf. cbn [option_map set_rcb lf_rcb assoc_N]. rewrite N.eqb_refl.
     rewrite memN_app_last. reflexivity.
 Qed.
